@@ -67,6 +67,9 @@ func (m *sysMap) reset() {
 	}
 }
 
+// extPrefix: upper-case letters are legal in a registered type string (Lookup is an exact match)
+const extPrefix = "ext/Vnd.Acme-"
+
 func (m *sysMap) realName(id string) string {
 	if a, ok := m.alias[id]; ok {
 		id = a
@@ -88,7 +91,7 @@ func (m *sysMap) realName(id string) string {
 	if strings.HasPrefix(id, "al") {
 		return "alias/" + id
 	}
-	return "ext/Vnd.Acme-" + id // upper-case letters are legal in a registered type string: Lookup is an exact match
+	return extPrefix + id
 }
 
 // inputID recognises the abstract input from any non-empty prefix of its bytes.
